@@ -42,7 +42,15 @@ ProRataSet(f, rq, q) ==
 \* price (or rate) times an integer amount
 Integral(d, x) == (d.n * x) % SCALE = 0
 Times(d, x)    == (d.n * x) \div SCALE                \* meaningful when Integral(d, x)
-RateOf(r, x)   == HalfUp(r.n * x, SCALE)              \* rate * amount, rounded half up, r.n >= 0
+\* A fee rate is a Dec in units of 1/RSCALE (six decimals).  rate * amount rounded half up, for
+\* 0 <= r.n <= RSCALE and 0 <= x < 2 000 000, by long division in base 1000 so that no intermediate
+\* value leaves TLC's 32-bit integers:  r.n * x = r.n * (a*1000 + b),  RSCALE = 1000 * 1000
+RSCALE == 1000000
+RateOf(r, x) ==
+    LET a == x \div 1000   b == x % 1000
+        q1 == (r.n * a) \div 1000   r1 == (r.n * a) % 1000
+        t == r1 * 1000 + r.n * b
+    IN q1 + HalfUp(t, RSCALE)
 
 \* "price has at most prec decimals"
 PrecOk(d, prec) == IF prec >= PMAXD THEN TRUE ELSE d.n % Pow10(PMAXD - prec) = 0
